@@ -104,6 +104,8 @@ def build_case(args):
                            vocab=vocab)
     if identity:
         cz.names = IdentityMap()
+    else:
+        cz.related = isinstance(cid, int) and cid % 4 == 2      # one file in four: names that are spellings of each other
     case = {"prop": prop, "cid": cid, "src": src, "base": base, "incl": incl}
     text = decio.render_file(cz, src)
     if prop == "C03":
